@@ -69,6 +69,7 @@ class RunPlan:
         """Explicit task list (boot, request); None = n seeded runs over self.boots()."""
         return None
 
+    expected_reach = ()      # probe / counter / fault names this property's exploration is meant to hit
     batch = 5000
     SLIM_KEYS = ("digest", "n_ops", "sched_steps", "violations", "counters", "probes", "faults_fired",
                  "state_hashes", "interleaving", "harness_error")
@@ -355,6 +356,8 @@ class RunPlan:
                 "boot_configs": [json.loads(b) for b in boots],
                 "templates_started": templates,
                 "fault_fired": faults,
+                "fault_configured": {"F2": counters.get("fault_configured:F2", 0),
+                                     "note": "F2 = operations carrying an injection (it fires only if the call executes that many library lines); F4/F5/F3 fire whenever configured"},
                 "outcomes_and_clause_counters": counters,
                 "probes": probes,
                 "determinism_selftest": st,
@@ -366,6 +369,11 @@ class RunPlan:
             },
             "assumptions": self.assumptions(),
         }
+        gaps = [n for n in self.expected_reach if not (probes.get(n) or counters.get(n) or faults.get(n))]
+        ev["coverage"]["reach_gaps"] = gaps
+        if gaps:
+            ev["assumptions"] = ev["assumptions"] + [
+                "reach gap in this run: the following named conditions were never hit: " + ", ".join(gaps)]
         if extra:
             ev["coverage"].update(extra)
         write_evidence(self.prop, ev)
@@ -413,6 +421,8 @@ def fnmatch_sig(sig, pattern):
 class C01Plan(RunPlan):
     prop = "C01"
     engine = "A"
+    expected_reach = ("F2", "F4", "F5", "C01.predicted.checked", "ok:as_ratio", "ok:u_root", "ok:load",
+                      "ok:measure", "ok:level", "decode-across-dimension-define")
     rule = ("one evaluation = one simulated run: a seeded history of <=60 public operations "
             "(definitions, unit/quantity algebra, roots, as_ratio, str//-format/pretty/MathML, parse, "
             "convert, pickle/copy/JSON round trips, cache evictions, at most one injected asynchronous "
